@@ -11,7 +11,7 @@ ev == Rec[l]
 Check(P) == IF P THEN TRUE ELSE FALSE
 IsEvent(e) == l <= Len(Rec) /\ Rec[l].ev = e /\ l' = l + 1
 Count(i, b) == TLCSet(i, TLCGet(i) + (IF b THEN 1 ELSE 0))
-EntriesOf(e) == [i \in 1..Len(e.entries) |-> [name |-> e.entries[i].raw, mode |-> e.entries[i].mode, data |-> e.entries[i].data]]
+EntriesOf(e) == [i \in 1..Len(e.entries) |-> [name |-> e.entries[i].lraw, cname |-> e.entries[i].raw, mode |-> e.entries[i].mode, data |-> e.entries[i].data]]
 Fs0 == (TRoot :> DirNode(DefDir))
 TreeOf(t) == [p \in {t[i].p : i \in 1..Len(t)} |->
                 LET i == CHOOSE k \in 1..Len(t) : t[k].p = p IN [kind |-> t[i].kind, perm |-> t[i].perm, data |-> t[i].data]]
@@ -23,8 +23,9 @@ TraceXRun ==
       /\ Check(ev.r \in {"ok", "err"})                                  \* never a panic, and the archive opens
       /\ Check(~ev.outside_changed /\ ev.target_is_dir)                 \* confinement, whatever the names are
       /\ Check(ev.deffile = DefFile /\ ev.defdir = DefDir)              \* (the runner fixes the umask)
-      /\ Check(~AllSafe(es) => ev.r = "err")                            \* an unsafe name fails the extraction
-      /\ Check((AllSafe(es) /\ Consistent(es)) => (r.clean /\ r.res = "ok"))
+      \* an unsafe name fails the extraction (the seekable extractor only ever sees the central names)
+      /\ Check((IF ev.via = "seek" THEN \E i \in 1..Len(es) : Enclosed(es[i].cname) = <<>> ELSE ~AllSafe(es)) => ev.r = "err")
+      /\ Check((AllSafe(es) /\ Consistent(es) /\ ~Diverged(es)) => (r.clean /\ r.res = "ok"))
       \* whenever no step met a conflict between names, the outcome is fully determined: result class and the
       \* exact tree (directories, files, contents, permission bits) - also for the part extracted before an unsafe name
       /\ Check(r.clean => (ev.r = r.res /\ TreeOf(ev.tree) = Below(r.fs)))
